@@ -493,6 +493,62 @@ const ALPHABET: [u8; 9] = [0x00, 0x01, 0x02, b'a', 0x3F, 0x40, 0xC0, 0x0C, 0x0D]
 /// another alignment. All pointers point strictly backwards; only a per-run limit
 /// ("pointed-to labels end before the run that pointed to them") keeps the decoded name
 /// from growing to runs x region. Parameters are random; so are a few damaged variants.
+/// G6: a well-formed message whose last string / bitmap inside some RDATA claims one byte more (or less) than the
+/// RDATA holds - the record length itself stays right -, and whose header promises one record more than the
+/// datagram carries (so that the reader of the next name starts exactly at the end): each is harmless to a
+/// careful decoder, together they reach the code that formats half-read messages for an error text.
+pub fn g6_off_by_one(rng: &mut Rng) -> Vec<u8> {
+    let mut m = wire::Message::response();
+    let pool = gen::name_pool(rng, 3, 20);
+    let n = 1 + rng.usize(3);
+    for _ in 0..n {
+        let owner = rng.pick(&pool).clone();
+        let rec = match rng.below(5) {
+            0 | 1 => {
+                // TXT: strings, the last length byte off by one
+                let mut t: Vec<u8> = Vec::new();
+                for _ in 0..rng.usize(3) {
+                    let k = rng.usize(6);
+                    t.push(k as u8);
+                    t.extend((0..k).map(|i| b'a' + i as u8));
+                }
+                let k = rng.usize(5);
+                t.push((k as i32 + *rng.pick(&[1i32, 1, -1, 2])).max(0) as u8);
+                t.extend((0..k).map(|i| b'k' + i as u8));
+                wire::rec(&owner, wire::T_TXT, 1 | wire::FLUSH, 120, RData::Raw(t))
+            }
+            2 => {
+                // HINFO: two strings, the second one byte short
+                wire::rec(&owner, 13, 1, 120, RData::Raw(vec![3, b'x', b'8', b'6', 6, b'L', b'i', b'n', b'u', b'x']))
+            }
+            3 => {
+                // NSEC: next name, window, bitmap length one more than what follows (or nothing after the window)
+                let mut d = vec![0xc0, 0x0c];
+                d.push(0);
+                if rng.chance(1, 2) {
+                    d.push(3);
+                    d.extend([0x40, 0x00]);
+                }
+                wire::rec(&owner, wire::T_NSEC, 1 | wire::FLUSH, 120, RData::Raw(d))
+            }
+            _ => gen::random_record(rng, &pool, gen::CORE_TYPES),
+        };
+        match rng.below(3) {
+            0 => m.answers.push(rec),
+            1 => m.authorities.push(rec),
+            _ => m.additionals.push(rec),
+        }
+    }
+    let mut b = wire::encode(&m, if rng.chance(1, 2) { wire::Compression::Max } else { wire::Compression::None });
+    // one record (or question) more than there is, in a section after the last one that has records
+    if b.len() >= 12 && rng.chance(3, 4) {
+        let at = if !m.additionals.is_empty() || rng.chance(1, 3) { 10 } else if !m.authorities.is_empty() { *rng.pick(&[8usize, 10]) } else { *rng.pick(&[6usize, 8, 10]) };
+        let v = u16::from_be_bytes([b[at], b[at + 1]]).saturating_add(1);
+        b[at..at + 2].copy_from_slice(&v.to_be_bytes());
+    }
+    b
+}
+
 pub fn g5_overlap(rng: &mut Rng) -> Vec<u8> {
     let big = rng.chance(1, 4);
     let m = 1 + rng.usize(if big { 130 } else { 24 }); // 63-byte labels per run
@@ -774,6 +830,7 @@ pub fn run(report: &Report, tier: &Tier) {
             let mut rng = Rng::new(util::mix(seed, 5u64 << 40 | i));
             for _ in 0..100 {
                 check_input(&g5_overlap(&mut rng), l, "G5-overlap");
+                check_input(&g6_off_by_one(&mut rng), l, "G6-off-by-one");
             }
         });
     }
